@@ -104,7 +104,8 @@ PROFILES = {
                     steps=70, conns=("c1", "c2", "c3", "c4", "c5"), w_stop=1.0, w_fault=1.0, usage=True),
     "allocfull": dict(apps=["a1"], sides=["s1", "s2"], names=["1", "10", "100"], client_mbox=["m1"],
                       steps=25, type_weights=dict(allocate=8, release=2, close=1, add=1), final_quiesce=False,
-                      prefill_spec=dict(class1=[9], class2=[89, 90, 90], class3=[0, 0, 899, 900])),
+                      prefill_spec=dict(class1=[9], class2=[89, 90, 90], class3=[0, 0, 899, 900, 900],
+                                        odd=["1000", "1001", "1002", "999999", "0999"])),
 }
 
 # ---------------------------------------------------------------------------
@@ -136,10 +137,12 @@ PLAN = {
                    ["alloc", "nameplate"], ["P04"]),
                 variants={"alloc": [dict(allow=True), dict(allow=False)]},
                 thorough_profiles=["allocfull"]),
-    "C09": _p(["C09.a", "C09.b"], [("crash", 8, 11), ("crashu", 7, 10)], ["crash", "crashu"],
-              ["crash", "usage", "mailbox", "script2"], ["P09"]),
-    "C10": _p(["C10.a", "C10.b", "C10.c", "C13.c"], [("crash", 8, 11), ("crashu", 7, 10)], ["crash", "crashu"],
-              ["crash"], ["P10", "P13"], pairs=[("resume", 120, 4000)], pairclause="C10.resume"),
+    "C09": dict(_p(["C09.a", "C09.b"], [("crash", 8, 11), ("crashu", 7, 10)], ["crash", "crashu"],
+                   ["crash", "usage", "mailbox", "script2", "crowd"], ["P09"]),
+                variants={"crash": [dict(), dict(usage=True)]}),
+    "C10": dict(_p(["C10.a", "C10.b", "C10.c", "C13.c"], [("crash", 8, 11), ("crashu", 7, 10)], ["crash", "crashu"],
+                   ["crash"], ["P10", "P13"], pairs=[("resume", 120, 4000)], pairclause="C10.resume"),
+                variants={"crash": [dict(), dict(usage=True)]}),
     "C11": _p([], [("time", 8, 11)], ["time"], [], ["P01", "P02"],
               pairs=[("restart", 120, 4000)], pairclause="C11.pair"),
     "C12": _p(["C12.a", "C12.b"], [("time", 8, 11), ("time2", 7, 10)], ["time", "time2"],
@@ -151,7 +154,7 @@ PLAN = {
     "C15": dict(_p(["C15.a", "C15.b", "C15.c"], [("usage", 7, 10), ("usage7", 7, 10)], ["usage", "usage7"],
                    ["usage", "crowd", "script2"], ["P15"]),
                 variants={"usage": [dict(usage=True, blur=0), dict(usage=True, blur=3)],
-                          "crowd": [dict(usage=True, blur=0)]}),
+                          "crowd": [dict(usage=True, blur=0)]}, classify=True),
     # blur intervals: minutes (tick = 60 s), seconds that do not divide a minute
     # (tick = 1 s), and real-valued arrival times (tick = 1/100 s)
     "C16": dict(_p(["C16.a", "C16.b", "C16.c"], [("usage", 7, 10), ("usage7", 7, 10)], ["usage", "usage7"],
@@ -159,12 +162,16 @@ PLAN = {
                 variants={"usage": [dict(usage=True, blur=3), dict(usage=True, blur=60 * 24), dict(usage=True, blur=7, unit=1),
                                     dict(usage=True, blur=45, unit=1), dict(usage=True, blur=61, unit=1),
                                     dict(usage=True, blur=3600, unit=1), dict(usage=True, blur=100, unit="1/100"),
-                                    dict(usage=True, blur=700, unit="1/100")]}),
+                                    dict(usage=True, blur=700, unit="1/100")]}, classify=True),
     "C18": dict(_p(["C18.a"], [("nolist", 8, 11), ("alloc", 8, 11), ("allocnl", 8, 11)], ["nolist"],
                    ["nameplate"], ["P18"], pairs=[("config", 96, 4000)], pairclause="C18.pair"),
                 variants={"nameplate": [dict(allow=True), dict(allow=False), dict(allow=False, usage=True, blur=3)]}),
-    "C17": _p(["C17.a", "C17.b", "C17.c", "C17.d", "C17.e", "C17.f", "C17.g"], [("proto", 7, 10), ("apps", 8, 11)],
-              ["proto"], ["proto", "apps", "script", "script2"], ["P17"]),
+    "C17": dict(_p(["C17.a", "C17.b", "C17.c", "C17.d", "C17.e", "C17.f", "C17.g"], [("proto", 7, 10), ("apps", 8, 11)],
+                   ["proto"], ["proto", "apps", "script", "script2"], ["P17"]),
+                # the configured welcome notices: none, a message of the day, an error, a version, all three
+                variants={"proto": [dict(), dict(welcome={"motd": "hello \u2603"}),
+                                    dict(welcome={"error": "go away", "current_cli_version": "0.12.0"}),
+                                    dict(welcome={"motd": "m", "error": "e", "current_cli_version": "v"}, usage=True)]}),
 }
 
 
